@@ -508,8 +508,14 @@ func (u *Unit) appendOp(fr *Frame, st *State, c *ssa.CallCommon, args []Val, pos
 	inPlaceArr := mkArr("app_inplace", m.SliceOff(s), oldArr, nil)
 	newRef := u.freshRef(st, "append")
 	newCap := tb.Fresh("appcap", ix)
-	u.assume(st.guard, tb.And(m.IxLe(n1, newCap), m.IxLt(newCap, m.IxConst(1<<62))))
+	u.assume(st.guard, tb.And(m.IxLe(n1, newCap), m.IxLt(newCap, m.IxConst(1<<60))))
 	reallocArr := mkArr("app_realloc", m.IxConst(0), oldArr, m.SliceOff(s))
+	{
+		// the Go runtime zeroes the spare capacity of a grown slice (growslice clears
+		// [newlen, cap) for pointer-free element types; other memory is allocated zeroed)
+		j := tb.BoundVar("j", ix)
+		u.assume(st.guard, tb.Forall([]*Term{j}, tb.Implies(tb.And(m.IxLe(n1, j), m.IxLt(j, newCap)), tb.Eq(tb.Select(reallocArr, j), m.Zero(et)))))
+	}
 	k, srt := u.elemsKey(et)
 	E := u.heapGet(st, k, srt)
 	E2 := tb.Ite(fits, tb.Store(E, m.SliceRef(s), inPlaceArr), tb.Store(E, newRef, reallocArr))
